@@ -218,6 +218,104 @@ def render(body, host, style=0):
     return PRELUDE + fn + main, r.tags, npaths
 
 
+
+# ---------------------------------------------------------------------------------------------------------------
+# enum coverage: a non-void body ending in a `match` on an enum scrutinee without default is accepted exactly when
+# every variant has an arm (cfg.go matchCoversEnum, Model/Cfg.lean matchCoversEnum, Props/C05 covers_enum_exact)
+
+ENUM_SIZES = [1, 2, 3, 5, 31, 32, 33, 63, 64, 65, 66, 70, 127, 128, 129, 200]
+
+
+def enum_cases(rng, tier):
+    """(n, missing set, has default, host, shuffled arms)"""
+    out = []
+    hosts = ["func", "method", "funcLit"]
+    k = 0
+    for n in ENUM_SIZES:
+        miss_opts = [[]] + [[m] for m in sorted({0, n - 1, n // 2, 31, 32, 63, 64, 65, n - 2}) if 0 <= m < n and n > 1]
+        if n > 3:
+            miss_opts.append(sorted({n - 1, n - 2}))
+            miss_opts.append([rng.below(n)])
+        if tier != "quick":
+            miss_opts += [[rng.below(n)] for _ in range(6)]
+        for mi, miss in enumerate(miss_opts):
+            for default in ([False, True] if (mi < 2 or tier != "quick") else [False]):
+                out.append((n, miss, default, hosts[k % 3], k % 4 == 3))
+                k += 1
+    return out
+
+
+def render_enum(n, miss, default, host, shuffled, rng):
+    vs = ["V%d" % i for i in range(n)]
+    armed = [i for i in range(n) if i not in miss]
+    order = list(armed)
+    if shuffled:
+        for i in range(len(order) - 1, 0, -1):
+            j = rng.below(i + 1); order[i], order[j] = order[j], order[i]
+    arms = ["        E::V%d => { return %d; }" % (i, 100 + i) for i in order]
+    if default:
+        arms.append("        _ => { return 999; }")
+    body = "    match e {\n" + "\n".join(arms) + "\n    }\n"
+    pick = "fn pick(i: i32) -> E {\n    match i {\n" + "\n".join("        %d => { return E::V%d; }" % (i, i) for i in range(n - 1)) + \
+           "\n        _ => { return E::V%d; }\n    }\n}\n" % (n - 1)
+    decl = "type E enum { " + ", ".join(vs) + " };\n"
+    if host == "func":
+        fn, call, pre = "fn cost(e: E) -> i32 {\n" + body + "}\n", "cost(pick(p))", []
+    elif host == "method":
+        fn, call, pre = "type H struct { .V: i32 };\nfn (h: H) cost(e: E) -> i32 {\n" + body + "}\n", "hh.cost(pick(p))", ["    let hh: H = { .V = 1 };"]
+    else:
+        fn, call = "", "g(pick(p))"
+        pre = ["    let g := fn(e: E) -> i32 {"] + ["    " + l for l in body.rstrip("\n").split("\n")] + ["    };"]
+    main = "fn main() {\n" + "\n".join(pre + ["    let p: i32 = 0;", "    while p < %d {" % n, "        io::Println(%s);" % call, "        p = p + 1;", "    }"]) + "\n}\n"
+    expected = [str(100 + i) if i not in miss else "999" for i in range(n)]
+    return 'import "std/io";\n' + decl + pick + fn + main, expected
+
+
+def check_enum_coverage(rep, tier, rng, st):
+    cases = enum_cases(rng, tier)
+    q = "".join("%d %s\n" % (n, ",".join(str(i) for i in range(n) if i not in miss) or "-") for n, miss, d, h, sh in cases)
+    model = run_driver(["cfg-covers"], q).split("\n")[:-1]
+    jobs, exps = [], []
+    for n, miss, d, h, sh in cases:
+        text, expected = render_enum(n, miss, d, h, sh, rng)
+        jobs.append({"files": {"main.fer": text}, "mode": "run", "timeout": 60}); exps.append(expected)
+    res = run_many(jobs)
+    st["enum_programs"] = len(jobs); st["enum_accepted"] = 0; st["enum_rejected"] = 0; st["enum_sizes"] = ENUM_SIZES
+    for (n, miss, d, h, sh), m, r, job, expected in zip(cases, model, res, jobs, exps):
+        key = "enum:%d:%s:%s:%s" % (n, ",".join(map(str, miss)) or "-", "D" if d else "N", h)
+        errs = [x for x in r.diags if x[0] == "error"]
+        missing_ret = any("not all code paths" in x[2] for x in errs)
+        other = [x[2] for x in errs if "not all code paths" not in x[2]]
+        covers = (m == "true")
+        if covers != (not miss):
+            rep.fail("tie:covers", "Model matchCoversEnum disagrees with the specification on %s" % key, {"kind": "broken-obligation", "correspondence": "fvdriver cfg-covers"}, no_input=True)
+        must_reject = bool(miss) and not d
+        if other or r.compile_rc not in (0, 1):
+            rep.fail("crash:" + key, "enum match (%d variants, arms missing for %s, %s default, %s): compiler failed otherwise: %s" % (n, miss, "with" if d else "no", h, (other or [strip_ansi(r.compile_out)[-200:]])[0][:200]),
+                     {"kind": "input", "files": job["files"], "observed": strip_ansi(r.compile_out)[-800:]})
+            continue
+        if missing_ret:
+            st["enum_rejected"] += 1
+            if not must_reject:
+                rep.fail("misreject:" + key, "a %s ending in a match over all %d variants%s is rejected for a missing return" % (h, n, " (with default)" if d else ""),
+                         {"kind": "input", "files": job["files"], "expected": "accepted", "observed": "rejected: not all code paths return"})
+            continue
+        st["enum_accepted"] += 1
+        if must_reject:
+            bad = [(i, v) for i, v in enumerate(r.lines) if i in miss]
+            rep.fail("falloff:" + key, "non-void %s ending in a match on an enum with %d variants, no default and no arm for variant(s) %s is ACCEPTED; calls with the missing variants return %s" %
+                     (h, n, miss, [v for _, v in bad][:4]),
+                     {"kind": "input", "files": job["files"], "expected": "compile error: not all code paths return", "observed": "accepted; output for the missing variants: %s" % bad[:6],
+                      "cmd": "ferret -o out main.fer && ./out"})
+            continue
+        if r.run_rc != 0 or r.lines != expected:
+            j = next((i for i in range(min(len(r.lines), len(expected))) if r.lines[i] != expected[i]), min(len(r.lines), len(expected)))
+            rep.fail("garbage:" + key, "accepted enum match (%d variants, %s): call with variant %d returns %r, expected %s (exit %s)" % (n, h, j, r.lines[j] if j < len(r.lines) else None, expected[j] if j < len(expected) else None, r.run_rc),
+                     {"kind": "input", "files": job["files"], "observed": r.lines[:20], "expected": expected[:20]})
+        else:
+            st["executed_paths"] += n
+
+
 HOSTS = ["func", "method", "funcLit", "lit_in_void_lit", "lit_in_lit", "lit_in_method", "lit_in_func", "lit_in_branch", "lit_as_arg"]
 MODEL_KIND = {"func": "func", "method": "method"}       # every other host is a function literal for the model
 
@@ -324,6 +422,8 @@ def main():
             rep.fail("garbage:" + key, "accepted body %s (%s) returns %s, not a value of any of its return statements %s" % (sx(bodies[i]), h, bad[:4], tags),
                      {"kind": "input", "files": job["files"], "observed": r.lines[:40], "expected_values": tags})
 
+    check_enum_coverage(rep, tier, rng, st)
+
     ok, out = lake_build(["FerretVerif.Props.C05"])
     names = theorem_names("C05")
     axioms, discharged = {}, 0
@@ -354,7 +454,9 @@ def main():
         "theorems": [{"name": nm, "axioms": axioms.get(nm)} for nm in names],
         "evaluations": len(jobs), "distinct_nontrivial": len([b for b in bodies if len(sx(b)) > 30]),
         "rule": "fixed corpus x 9 hosts (function, method, function literal; literal nested in a void literal, in a non-void literal, in a method, in a function, in a branch inside a loop, passed as an argument) + seeded random skeletons rendered with 5 spellings of undecidable loop conditions (counter, flag cleared by assignment, flag cleared through &', bound in a let, `true && c`) (nesting depth <= 3, <= 10 nodes) over if/else-if/else, match with and "
-                "without default, while (opaque / literal true with break), for, break/continue, early returns; non-trivial = distinct skeletons with more than ~4 nodes",
+                "without default, while (opaque / literal true with break), for, break/continue, early returns; non-trivial = distinct skeletons with more than ~4 nodes; "
+                "ENUM COVERAGE: bodies ending in a match on an enum of 1..200 variants (sizes around 32, 64 and 128 included) with every arm, or arms missing at the first / middle / last / 32nd / 64th / 65th position, "
+                "with and without default, arms in declaration or shuffled order, as function, method and function literal; accepted ones are called with every variant",
         "samples": [sx(b) for b in bodies[len(CORPUS):len(CORPUS) + 5]],
         "model_vs_code_diffs": diffs[:10], "stats": st,
     }
